@@ -1846,3 +1846,90 @@ def refresh_before_trade(chk, pid):
             ok = all(sym.lit_holds(g, a, p) for a, p in plain(u.guard))
             chk.ob("C02.R5", ok, CORE, host, "refresh-when:%s" % k, "the refresh is performed whenever the security needs an update or its clock lags behind its parent's", where=u.where,
                    expected="update under needupdate or now != parent.now", found=sym.fmt_guard(plain(u.guard)), sample={"scenario": k, "guard": sym.fmt_guard(plain(u.guard))})
+
+
+
+# ------------------------------------------------------------------------------------------------
+# security setup: where the price / spread / coupon series and the history columns come from
+
+SEC_SETUP_REF = '''
+def ref(self, universe, **kwargs):
+    try:
+        prices = universe[self.name]
+    except KeyError:
+        prices = None
+    if prices is not None:
+        self._prices = prices
+        self.data = pd.DataFrame(
+            index=universe.index,
+            columns=["value", "position", "notional_value"],
+            data=0.0,
+        )
+        self._prices_set = True
+    else:
+        self.data = pd.DataFrame(
+            index=universe.index,
+            columns=["price", "value", "position", "notional_value"],
+        )
+        self._prices = self.data["price"]
+        self._prices_set = False
+    self._values = self.data["value"]
+    self._notl_values = self.data["notional_value"]
+    self._positions = self.data["position"]
+    self.data["outlay"] = 0.0
+    self._outlays = self.data["outlay"]
+    if "bidoffer" in kwargs:
+        self._bidoffer_set = True
+        self._bidoffers = kwargs["bidoffer"]
+        try:
+            bidoffers = self._bidoffers[self.name]
+        except KeyError:
+            bidoffers = None
+        if bidoffers is not None:
+            if bidoffers.index.equals(universe.index):
+                self._bidoffers = bidoffers
+            else:
+                raise ValueError("Index of bidoffer must match universe data")
+        else:
+            self.data["bidoffer"] = 0.0
+            self._bidoffers = self.data["bidoffer"]
+        self.data["bidoffer_paid"] = 0.0
+        self._bidoffers_paid = self.data["bidoffer_paid"]
+'''
+
+COUPON_SETUP_REF = '''
+def ref(self, universe, **kwargs):
+    super(CouponPayingSecurity, self).setup(universe, **kwargs)
+    if "coupons" not in kwargs:
+        raise Exception(\'"coupons" must be passed to setup for a CouponPayingSecurity\')
+    try:
+        self._coupons = kwargs["coupons"][self.name]
+    except KeyError:
+        self._coupons = None
+    if self._coupons is None or not self._coupons.index.equals(universe.index):
+        raise ValueError("Index of coupons must match universe data")
+    try:
+        self._cost_long = kwargs["cost_long"][self.name]
+    except KeyError:
+        self._cost_long = None
+    try:
+        self._cost_short = kwargs["cost_short"][self.name]
+    except KeyError:
+        self._cost_short = None
+    self.data["coupon"] = 0.0
+    self.data["holding_cost"] = 0.0
+    self._coupon_income = self.data["coupon"]
+    self._holding_costs = self.data["holding_cost"]
+'''
+
+
+def security_setup_rules(chk, pid):
+    from .algo_equiv import check_equiv
+
+    if pid in ("C01", "C04", "C19"):
+        check_equiv(chk, "C01.R8", CORE, "SecurityBase", "setup", SEC_SETUP_REF, "security-setup",
+                    "a security binds its own column of the universe as its price series (or an own empty column when the universe has none), its own history columns, and - when bid/offer "
+                    "data is supplied - its own column of it, index-checked", limit=14)
+    if pid in ("C17", "C04"):
+        check_equiv(chk, "C17.R2", CORE, "CouponPayingSecurity", "setup", COUPON_SETUP_REF, "coupon-setup",
+                    "a coupon-paying security binds its own coupon column (mandatory, index-checked) and optional long/short holding-cost columns", no_inline=("setup",), limit=14)
